@@ -20,6 +20,9 @@ type crescent struct {
 	rot   int           // quarter turns
 	rev   bool
 	start int // 0: base start, 1: tip, 2: base end
+	// gap > 0 (contours started at the tip only): the last curve ends this far beside the tip it
+	// started from and Close covers the rest (below Epsilon: is that Close a segment or not?)
+	gap float64
 }
 
 func crescentShapes() []crescent {
@@ -40,13 +43,17 @@ func crescentShapes() []crescent {
 		for rot := 0; rot < 4; rot++ {
 			for _, rev := range []bool{false, true} {
 				for start := 0; start < 3; start++ {
-					out = append(out, crescent{s, rot, rev, start})
+					out = append(out, crescent{s, rot, rev, start, 0})
 				}
 			}
 		}
 	}
 	return out
 }
+
+// atTip: the contour starts at the tip (start 1 as written, start 2 when reversed) and its last
+// segment is one of the curves.
+func (c crescent) atTip() bool { return !c.rev && c.start == 1 || c.rev && c.start == 2 }
 
 func (c crescent) data() []float64 {
 	turn := func(p oracle.Pt) oracle.Pt {
@@ -88,6 +95,18 @@ func (c crescent) data() []float64 {
 			q1, q2 := turn(s.p[1]), turn(s.p[2])
 			d = append(d, oracle.CmdCube, q1.X, q1.Y, q2.X, q2.Y, e.X, e.Y, oracle.CmdCube)
 		}
+	}
+	if c.gap > 0 && c.atTip() {
+		// the last curve arrives at the tip along its tangent; move its end point and the control
+		// point before it sideways by the gap, away from the other curve (the lower curve down, the
+		// upper curve up, in the unturned frame), so that the contour stays simple
+		sh := turn(oracle.Pt{X: 0, Y: -c.gap})
+		if c.rev {
+			sh = turn(oracle.Pt{X: 0, Y: c.gap})
+		}
+		n := len(d)
+		d[n-3], d[n-2] = d[n-3]+sh.X, d[n-2]+sh.Y
+		d[n-5], d[n-4] = d[n-5]+sh.X, d[n-4]+sh.Y
 	}
 	return append(d, oracle.CmdClose, p0.X, p0.Y, oracle.CmdClose)
 }
@@ -138,6 +157,25 @@ func crescentFamily() fw.Family {
 		Check: func(i int64, r *fw.R) { checkCrescent(r, cs[i]) },
 		Desc: func(i int64) string {
 			return oracle.Fmt(cs[i].data()) + " CCW, and Filling inside M-10 -10L-10 10L10 10L10 -10z"
+		}}
+}
+
+// crescentGapFamily: the crescents started at the tip whose last curve ends 1e-12 .. 5e-11 short of it.
+func crescentGapFamily() fw.Family {
+	var cs []crescent
+	for _, c := range crescentShapes() {
+		if !c.atTip() {
+			continue
+		}
+		for _, g := range []float64{5e-11, 2.5e-11, 1e-12} {
+			c.gap = g
+			cs = append(cs, c)
+		}
+	}
+	return fw.Family{Name: "crescents started at the cusp whose last curve ends 1e-12, 2.5e-11 or 5e-11 beside it (closed by Close) x 4 directions x 2 orientations: CCW and Filling", N: int64(len(cs)),
+		Check: func(i int64, r *fw.R) { checkCrescent(r, cs[i]) },
+		Desc: func(i int64) string {
+			return oracle.Fmt(cs[i].data()) + fmt.Sprintf(" (gap %g) CCW, and Filling inside M-10 -10L-10 10L10 10L10 -10z", cs[i].gap)
 		}}
 }
 
